@@ -1,9 +1,10 @@
 /-
-C10 at real binary32 rounding: the forward error bound of the integral stream's accumulation (trapezoidal sum) for the scalar
-type `SF` (finite binary32 numbers with correctly rounded `+ − * /`, `Rrtk/Thm/Lemmas/SoftScalar.lean`).
+C10 at real binary32 rounding: forward error bounds of the integral stream (trapezoidal sum) for the scalar type `SF` (finite
+binary32 numbers with correctly rounded `+ − * /`, `Rrtk/Thm/Lemmas/SoftScalar.lean`).
 The theorems live in `Rrtk/Thm/Lemmas/C10Rounding.lean` (namespace `Rrtk.Thm.C10`):
 `trapRev_value` (which number the integral holds, any scalar), `sumR_err`, `integral_accumulation_err_binary32`,
-`trapsum_err_binary32`, `integral_err_binary32`.
+`trapsum_err_binary32`, `integral_err_binary32` (accumulation against the exact sum of the rounded addends),
+`trapVal_err`, `trapsum_forward_err_binary32`, `integral_forward_err_binary32` (against the exact trapezoidal sum).
 -/
 import Rrtk.Thm.C10
 import Rrtk.Thm.Lemmas.C10Rounding
